@@ -19,6 +19,49 @@ CHECKS = {
     design="6/C15"),
 }
 
+CHECKS.update({
+ "C01": dict(
+    text="Coq theorems about the executable model of btree.go/page.go/relation.go (inductive tree with page labels): "
+         "for trees of any height an insertion above the maximum appends exactly one cell to the in-order cell list "
+         "(tombstones and all other cells untouched) through leaf/internal/root splits and allocates only fresh pages; "
+         "scans by stored sibling offsets return exactly the live cells in insertion order in every reachable state; "
+         "UPDATE/DELETE rewrite exactly the addressed cell; row ids strictly increasing and at most lastKey, no page "
+         "shared between tables. The end-to-end statement (C01_full_statement: SELECT * through the catalog equals the "
+         "plain table specification) is stated but not yet proved; it is checked on every run by running seeded "
+         "histories on the real engine and comparing, after every statement, every table, sys_schema and every page "
+         "(offset, LSN, dirty flag, sibling fields, cells) with the model, and the tables with Spec/TableSpec.v.",
+    note="PARTIAL proof (see Properties/C01.v header). Trusted: Coq kernel + vm_compute; hand-written model "
+         "(Model/Tree.v, Store.v, Engine.v, Tuple.v) tied to the Go code by correspondence only; SQL text parsed by the "
+         "real parser while the model receives the intended statement tree (C10). No axioms.",
+    technique="Coq proof (structural induction on trees, store invariant over histories) + model/implementation/spec correspondence",
+    design="6/C01"),
+ "C11": dict(
+    text="Coq theorems that every state reachable by any history of statements (successful or failing) and flushes "
+         "satisfies the shape invariant for every tree in cache and on disk: uniform depth, keys inside separator "
+         "bounds, strictly ascending keys, nodes below capacity, stored sibling fields equal to in-order neighbours, no "
+         "page reachable twice within or across trees; corollaries: the left-to-right chain equals the leaves in tree "
+         "order and the right-to-left chain its reverse, every live cell is found by point lookup. Tied to the code by "
+         "page dumps after every operation compared field by field with the model, and independently judged by a "
+         "page-graph oracle (Spec/DumpCheck.v) that follows stored child/sibling offsets.",
+    note="Trusted: Coq kernel + vm_compute; the inductive-tree model (pages are never shared or freed, so the page graph "
+         "of a reachable file is a forest - the correspondence would show a disagreement otherwise); crash recovery is "
+         "covered under C02. No axioms.",
+    technique="Coq proof (invariant by induction over histories, structural induction on trees) + page-dump correspondence",
+    design="6/C11"),
+ "C13": dict(
+    text="Coq theorem over a transition system of a session thread and the flusher thread on an RWMutex: for any "
+         "statement programs accepted by a verified bracket checker and any schedule, no page/header write happens "
+         "inside a statement and cache/page state is never touched by both sides at once; the programs are regenerated "
+         "from the Go source on every run (tools/gen_protocol) and re-checked. Dynamic part: -race build against the "
+         "real 100 ms ticker with statements parked at six points while the data file is watched.",
+    note="PARTIAL: the theorem is about the lock protocol extracted from the source; Go memory model, runtime and the "
+         "bodies of classified calls are not modelled (covered by the race detector run). Races between USE's "
+         "fileStore.open and the ticker's first flush are outside the property's statement kinds and filtered by call "
+         "site (documented in tools/props/c13.py). No axioms.",
+    technique="Coq proof (invariant over reachable states of the lock protocol regenerated from source) + race-detector run",
+    design="6/C13"),
+})
+
 NOT_YET = {
 }
 
